@@ -270,7 +270,9 @@ impl<'tcx> Ex<'tcx> {
                         let vi = bty.variant_index.unwrap_or(rustc_abi::FIRST_VARIANT);
                         format!(".{}", def.variant(vi).fields[f].name)
                     }
-                    ty::Closure(d, _) | ty::Coroutine(d, _) | ty::CoroutineClosure(d, _) => {
+                    ty::Closure(d, _) | ty::Coroutine(d, _) | ty::CoroutineClosure(d, _)
+                        if bty.variant_index.is_none() =>
+                    {
                         let caps = d.as_local().map(|l| tcx.closure_captures(l));
                         match caps.and_then(|c| c.get(f.index())) {
                             Some(c) => format!(".^{}", c.to_string(tcx)),
